@@ -149,7 +149,8 @@ Record Inv (w : world) : Prop := mkInv {
 
 Lemma inv_init n : Inv (init_world n).
 Proof.
-  constructor; cbn; try discriminate; try (intros; intuition discriminate); auto.
+  constructor; cbn; try discriminate; auto;
+    try (intros t m [H|H]; discriminate); try (intros t m [H|[H|H]]; discriminate).
   intros m t r H. unfold getm in H. cbn [wms init_world] in H.
   destruct (Nat.lt_ge_cases m n) as [Hl|Hg].
   - rewrite (nth_indep _ _ (mkM true false [] [])) in H by (rewrite repeat_length; exact Hl).
